@@ -9,7 +9,7 @@ Require Import Extraction ExtrOcamlBasic.
    scalar-operations record and Z; this unused definition makes the extraction emit those types. *)
 Definition c14_unused_scalar (S : SOps) (x : T S) : T S := sadd S x (sofZ S 1%Z).
 
-Extraction "C14_model.ml" c14_unused_scalar run check_shapes
+Extraction "C14_model.ml" c14_unused_scalar run check_shapes ok
   case_wna obs_wna case_simstate obs_simstate case_linsensor obs_linsensor
   case_history obs_history h_init case_grid obs_grid case_sigma sigma_out case_ut obs_ut
   case_kfp obs_kfp case_kfc obs_kfc case_ukfp ukfp_out case_ukfc obs_ukfc case_sukf obs_sukf
